@@ -140,8 +140,36 @@ def check(run):
             run.check(a0 in ('self.cs*1j**self.ps', '1j**self.ps*self.cs'), 'R6.reduce', rd, ag[0], 'phases move into the coefficients as cs * i^ps before merging (found %s)' % a0)
             run.check(norm(ag[0].args[1]) == norm(uq[0].targets[0].elts[1]) if uq and isinstance(uq[0].targets[0], ast.Tuple) else False, 'R6.reduce', rd, ag[0], 'terms are merged by the inverse index of unique')
         mk = [s for s, _ in walk(rd.node) if isinstance(s, ast.Assign) and isinstance(s.value, ast.Compare)]
-        ok = len(mk) == 1 and norm(mk[0].value).replace(' ', '') in ('numpy.abs(cs)>tol', 'torch.abs(cs)>tol', 'abs(cs)>tol')
-        run.check(ok, 'R6.reduce', rd, 'mask = abs(cs) > tol', 'only terms whose merged coefficient is at most the tolerance are dropped')
+        ok = len(mk) == 1
+        if ok:
+            try:
+                for tolv in (1e-10, 1e-5):
+                    for cv in (0j, 1e-12 + 0j, 5e-11j, 2e-10 + 0j, 3e-8 - 3e-8j, 1e-5 + 1e-6j, 1e-3 + 1e-3j, -0.5 + 0j, 2j):
+                        def call(n, env, rec):
+                            fn = norm(n.func).split('.')[-1]
+                            if fn in ('abs', 'absolute') and len(n.args) == 1:
+                                return abs(rec(n.args[0]))
+                            if fn in ('sqrt',) and len(n.args) == 1:
+                                return rec(n.args[0]) ** 0.5
+                            raise Undecidable('call ' + fn)
+
+                        def attr(n, env, rec):
+                            v = rec(n.value)
+                            if n.attr in ('real', 'imag'):
+                                return getattr(complex(v), n.attr)
+                            raise Undecidable('attr')
+                        cname = [x.id for x in ast.walk(mk[0].value) if isinstance(x, ast.Name) and x.id not in ('numpy', 'torch', 'np', rd.posparams[1])]
+                        env = {nm: cv for nm in cname}
+                        env[rd.posparams[1]] = tolv
+                        if bool(ev(mk[0].value, env, call=call, attr=attr)) != (abs(cv) > tolv):
+                            ok = False
+            except Undecidable:
+                ok = None
+        if ok is None:
+            run.undecided('R6.reduce', rd, mk[0], 'tolerance test not evaluable')
+        else:
+            run.check(ok, 'R6.reduce', rd, mk[0] if mk else 'mask', 'a merged term is dropped exactly when |coefficient| <= tol (the test must compare the magnitude, '
+                      'not its square or its real part, with the tolerance)')
         rets = [s.value for s, _ in walk(rd.node) if isinstance(s, ast.Return)]
         if len(rets) == 1 and mk:
             mname = norm(mk[0].targets[0])
